@@ -32,11 +32,43 @@ def section(ctx, name: str):
     """``with section(ctx, "group"):`` = ``with ctx.section("group"):`` plus: a NameError caused by a
     variable that an earlier, unreadable section failed to bind is an analysis error of this group
     (recorded, run continues), not a crash of the analyser."""
+    _install_touch(ctx)
+    t0, f0, o0 = len(ctx._touched), len(ctx.findings), len(ctx.obligations)
     with ctx.section(name):
         try:
             yield
         except NameError as e:
             raise AnalysisError(f"depends on a rule group that could not be analysed ({e})")
+        new = [f for f in ctx.findings[f0:] if f.known is None]
+        residual = sorted({nm for fn in ctx._touched[t0:] for nm in getattr(fn, "_residual", []) if nm not in ctx.__dict__.get("_reviewed_helpers", ())})
+        if new and residual:
+            # a rule may only say VIOLATION when everything the function calls was followed: withhold, never guess
+            for f in new:
+                ctx.findings.remove(f)
+            for o in ctx.obligations[o0:]:
+                if o.get("verdict") == "VIOLATED":
+                    o["verdict"] = "withheld"
+            raise AnalysisError(f"{len(new)} verdict(s) withheld: the code analysed calls private helper(s) {residual} that could not be inlined "
+                                f"(first: {new[0].rule} | {new[0].construct})")
+
+
+def _install_touch(ctx):
+    """Record which functions a rule group builds a CFG for (instance-level wrapper, the engine is not modified)."""
+    if "_touched" in ctx.__dict__:
+        return
+    ctx._touched = []
+    orig = ctx.cfg
+
+    def cfg(func, *a, **k):
+        ctx._touched.append(func)
+        return orig(func, *a, **k)
+    ctx.cfg = cfg
+
+
+def reviewed_helpers(ctx, *names):
+    """Private helpers that stay un-inlined on purpose (mentioned in other modules / overridable) and whose effects were reviewed by
+    hand as irrelevant to the rules: they do not clear the 'fully understood' bit."""
+    ctx.__dict__.setdefault("_reviewed_helpers", set()).update(names)
 
 
 class Missing:
@@ -338,6 +370,22 @@ def swallowing_predicate(ctx, rel: str):
 
         cache[rel] = (names, pred)
     return cache[rel]
+
+
+def isolating_try(node: ast.AST):
+    """(try statement, narrow) for the nearest enclosing ``try`` inside the nearest loop whose handlers catch the exceptions of ``node``
+    without re-raising: narrow=False when a bare / BaseException handler is present, True when only narrower handlers are."""
+    prev = node
+    for p in parents(node):
+        if isinstance(p, ast.Try) and any(prev is x or any(prev is y for y in ast.walk(x)) for x in p.body):
+            if p.handlers and not any(isinstance(x, ast.Raise) for h in p.handlers for x in ast.walk(h)):
+                wide = any(h.type is None or dotted(h.type) == "BaseException" or
+                           (isinstance(h.type, ast.Tuple) and any(dotted(e) == "BaseException" for e in h.type.elts)) for h in p.handlers)
+                return p, not wide
+        if isinstance(p, (ast.For, ast.While, ast.AsyncFor) + FUNC_TYPES):
+            return None, False
+        prev = p
+    return None, False
 
 
 def isolating_with(node: ast.AST, names: Set[str]) -> Optional[ast.With]:
@@ -741,12 +789,17 @@ def _always_exits(block) -> bool:
             return True
         if isinstance(st, ast.If) and st.orelse and _always_exits(st.body) and _always_exits(st.orelse):
             return True
+        if isinstance(st, ast.Try) and not st.finalbody and st.handlers and _always_exits(st.body + st.orelse) and all(_always_exits(h.body) for h in st.handlers):
+            return True
+        if isinstance(st, (ast.With, ast.AsyncWith)) and False:
+            return True
     return False
 
 
-def _seq(stmts, k):
+def _seq(stmts, k, simple_k=False):
     """Return-free version of a statement list; ``k(E)`` yields (fresh) continuation statements for
-    ``return E`` (E may be None) and for falling off the end."""
+    ``return E`` (E may be None) and for falling off the end.  ``simple_k``: the continuation only binds / discards / returns the value
+    (it cannot raise by itself), so it may be placed inside a ``try`` of the helper."""
     out = []
     for i, st in enumerate(stmts):
         rest = stmts[i + 1:]
@@ -756,9 +809,32 @@ def _seq(stmts, k):
             return out + [st]
         if isinstance(st, ast.If) and _contains_return(st):
             b_exit, o_exit = _always_exits(st.body), _always_exits(st.orelse)
-            body = _seq(st.body + ([] if b_exit else clone(rest)), k)
-            orelse = _seq(st.orelse + ([] if o_exit else clone(rest)), k)
+            body = _seq(st.body + ([] if b_exit else clone(rest)), k, simple_k)
+            orelse = _seq(st.orelse + ([] if o_exit else clone(rest)), k, simple_k)
             new = ast.If(test=st.test, body=body or [ast.Pass()], orelse=orelse)
+            ast.copy_location(new, st)
+            return out + [new]
+        if isinstance(st, (ast.With, ast.AsyncWith)) and _always_exits(st.body) and not any(
+                isinstance(x, (ast.For, ast.While, ast.Try, ast.With)) and _contains_return(x) for b in st.body for x in ast.walk(b)):
+            # `with cm: ...; return E` followed by R: the statements after the with only run when cm swallowed an exception.  When R merely
+            # produces the fallback value (plain assignments of constants / names through the continuation), "R first, then the with body
+            # overriding it" computes the same thing: this is the `x = default; with cm: x = E` idiom.
+            fallback = _seq(clone(rest), k, simple_k)
+            def plain(s_):
+                return isinstance(s_, ast.Pass) or (isinstance(s_, (ast.Assign, ast.AnnAssign)) and isinstance(getattr(s_, "value", None), (ast.Constant, ast.Name))
+                                                    and all(isinstance(t, ast.Name) for t in (s_.targets if isinstance(s_, ast.Assign) else [s_.target])))
+            if not all(plain(s_) for s_ in fallback):
+                raise _NotInlinable("code after a returning with-block has effects")
+            new = st.__class__(items=st.items, body=_seq(st.body, k, simple_k) or [ast.Pass()])
+            ast.copy_location(new, st)
+            return out + fallback + [new]
+        if isinstance(st, ast.Try) and simple_k and not st.finalbody and _always_exits([st]) and not any(
+                isinstance(x, (ast.For, ast.While, ast.With)) and _contains_return(x) for x in ast.walk(st) if x is not st):
+            # try: ... return E / except X: ...; return F  - every path leaves through a return (or raise): the value-binding continuation
+            # replaces each return in place, the statements after the try are dead
+            new = ast.Try(body=_seq(st.body + st.orelse, k, simple_k) or [ast.Pass()],
+                          handlers=[ast.copy_location(ast.ExceptHandler(type=h.type, name=h.name, body=_seq(h.body, k, simple_k) or [ast.Pass()]), h) for h in st.handlers],
+                          orelse=[], finalbody=[])
             ast.copy_location(new, st)
             return out + [new]
         if _contains_return(st):
@@ -847,9 +923,13 @@ def _inline_stmt(st, helpers, caller_names, counter):
             if not ok:
                 return None
     params = [a.arg for a in h.args.args]
-    if h.args.vararg or h.args.kwarg or h.args.kwonlyargs or h.args.posonlyargs or h.args.defaults or not params or len(K.args) != len(params) - 1:
+    static = any(dotted(d) == "staticmethod" for d in h.decorator_list)
+    if not static:
+        if not params:
+            return None
+        params = params[1:]
+    if h.args.vararg or h.args.kwarg or h.args.kwonlyargs or h.args.posonlyargs or h.args.defaults or len(K.args) != len(params):
         return None
-    params = params[1:]
     hbody = clone([s for s in h.body if not (isinstance(s, ast.Expr) and isinstance(s.value, ast.Constant) and isinstance(s.value.value, str))])
     tmp = ast.Module(body=hbody, type_ignores=[])
     assigned = _assigned_names(tmp)
@@ -882,8 +962,11 @@ def _inline_stmt(st, helpers, caller_names, counter):
             return []
         s2 = clone_except(st, K, E if E is not None else ast.Constant(value=None))
         return [s2]
+    simple_k = (isinstance(st, ast.Expr) and st.value is K) or (isinstance(st, ast.Return) and st.value is K) or \
+        (isinstance(st, ast.Assign) and st.value is K and len(st.targets) == 1 and isinstance(st.targets[0], ast.Name)) or \
+        (isinstance(st, ast.AnnAssign) and st.value is K and isinstance(st.target, ast.Name))
     try:
-        body = _seq(tmp.body, k)
+        body = _seq(tmp.body, k, simple_k)
     except _NotInlinable:
         return None
     out = prologue + body
@@ -1165,8 +1248,9 @@ def norm_class(ctx, rel: str, clsname: str, keep: Iterable[str] = ()) -> ast.Cla
         funcs = _class_functions(cls)
         helpers = {}
         for blk, f in funcs:
-            if f.name in keep or not f.name.startswith("_") or (f.name.startswith("__") and f.name.endswith("__")) or f.decorator_list or _is_generator(f) \
-                    or isinstance(f, ast.AsyncFunctionDef):
+            static = len(f.decorator_list) == 1 and dotted(f.decorator_list[0]) == "staticmethod"
+            if f.name in keep or not f.name.startswith("_") or (f.name.startswith("__") and f.name.endswith("__")) or (f.decorator_list and not static) \
+                    or _is_generator(f) or isinstance(f, ast.AsyncFunctionDef):
                 continue
             if sum(1 for _, g in funcs if g.name == f.name) != 1:
                 continue
@@ -1212,6 +1296,13 @@ def norm_class(ctx, rel: str, clsname: str, keep: Iterable[str] = ()) -> ast.Cla
                     break
     ast.fix_missing_locations(cls)
     set_parents(cls, getattr(orig, "_parent", None))
+    # "fully understood" bit: private methods of this class (not anchors) that are still called after normalisation - a helper that
+    # could not be inlined, a generator helper, ... - are recorded on every function that calls them
+    left = {f.name for _, f in _class_functions(cls) if f.name not in keep and f.name.startswith("_") and not (f.name.startswith("__") and f.name.endswith("__"))}
+    for _, f in _class_functions(cls):
+        for fn in [f] + [n for n in ast.walk(f) if isinstance(n, (ast.FunctionDef, ast.AsyncFunctionDef)) and n is not f]:
+            fn._residual = sorted({n.func.attr for n in ast.walk(fn) if isinstance(n, ast.Call) and isinstance(n.func, ast.Attribute) and n.func.attr in left
+                                   and isinstance(n.func.value, ast.Name) and n.func.value.id in ("self", "cls", clsname)})  # type: ignore[attr-defined]
     cls._inlined = inlined  # type: ignore[attr-defined]
     cls._orig = orig  # type: ignore[attr-defined]
     cache[key] = cls
